@@ -564,6 +564,16 @@ impl Report {
             capped.is_none(),
             self.start.elapsed().as_secs_f64()
         );
+        if !new_viols.is_empty() {
+            for m in &mach {
+                eprintln!("MACHINERY-ERROR (besides the violations): {m}");
+            }
+            for (v, p) in new_viols.iter().zip(&replay_paths) {
+                println!("  [{}] {}", v.signature, v.message);
+                println!("VIOLATION property={} replay={}", self.property, p.display());
+            }
+            return 1;
+        }
         if !mach.is_empty() {
             for m in &mach {
                 eprintln!("MACHINERY-ERROR: {m}");
@@ -573,13 +583,6 @@ impl Report {
         if self.states.load(Ordering::Relaxed) == 0 || self.transitions.load(Ordering::Relaxed) == 0 {
             eprintln!("MACHINERY-ERROR: nothing explored");
             return 2;
-        }
-        if !new_viols.is_empty() {
-            for (v, p) in new_viols.iter().zip(&replay_paths) {
-                println!("  [{}] {}", v.signature, v.message);
-                println!("VIOLATION property={} replay={}", self.property, p.display());
-            }
-            return 1;
         }
         0
     }
@@ -690,4 +693,39 @@ pub fn par_threads() -> usize {
 
 pub fn production_cli() -> PathBuf {
     PathBuf::from("/verif/target/cli/release/txtpp")
+}
+
+/// Run the production CLI (built without the `verif` feature) in `cwd`. Returns (exit code or -signal, timed out)
+pub fn run_cli(cwd: &Path, args: &[&str], env: &[(&str, &str)], timeout_s: f64) -> (i32, bool) {
+    use std::os::unix::process::ExitStatusExt;
+    let mut c = std::process::Command::new(production_cli());
+    c.current_dir(cwd)
+        .args(args)
+        .env_remove("TXTPP_FILE")
+        .env_remove("RUST_LOG")
+        .stdin(std::process::Stdio::null())
+        .stdout(std::process::Stdio::null())
+        .stderr(std::process::Stdio::null());
+    for (k, v) in env {
+        c.env(k, v);
+    }
+    let mut child = c.spawn().expect("spawn production CLI (run ./check so that it is built)");
+    let t0 = Instant::now();
+    loop {
+        match child.try_wait() {
+            Ok(Some(st)) => {
+                let code = st.code().unwrap_or_else(|| -st.signal().unwrap_or(0));
+                return (code, false);
+            }
+            Ok(None) => {
+                if t0.elapsed().as_secs_f64() > timeout_s {
+                    let _ = child.kill();
+                    let _ = child.wait();
+                    return (-9, true);
+                }
+                std::thread::sleep(std::time::Duration::from_millis(5));
+            }
+            Err(_) => return (-1, false),
+        }
+    }
 }
